@@ -25,7 +25,7 @@ type regEntry struct {
 // reported on c (if non-nil) under the given rule prefix.
 func registryEntries(c *Check, p *Program, rule string) []regEntry {
 	pk := p.PkgSyntax("knx/dpt")
-	obj := pk.Types.Scope().Lookup("dptTypes")
+	obj := registryObj(pk.Types)
 	if obj == nil {
 		if c != nil {
 			c.Fail(rule, "dpt.dptTypes", "", "registry variable not found")
@@ -226,7 +226,7 @@ func hasReference(t types.Type, depth int) string {
 
 func checkProduce(c *Check, p *Program) {
 	fn := p.Func("knx/dpt", "Produce")
-	g := p.Global("knx/dpt", "dptTypes")
+	g := registryGlobal(p)
 	if fn == nil || g == nil {
 		c.Fail("C19.produce", "dpt.Produce", "", "function Produce or variable dptTypes not found")
 		return
@@ -268,25 +268,104 @@ func checkProduce(c *Check, p *Program) {
 			}
 		}
 	}
+	// okAt: +1 when the lookup's ok is known true at the end of block b (on the edge to succ), -1 known false, 0 unknown
+	okAt := func(b, succ *ssa.BasicBlock) int {
+		fs := factsAt(b)
+		if succ != nil {
+			fs = append(append([]Cmp{}, fs...), edgeFactsOf(b, succ)...)
+		}
+		res := 0
+		for _, f := range fs {
+			if f.X != okVal {
+				continue
+			}
+			k, isK := f.Y.(*ssa.Const)
+			if !isK || k.Value == nil || k.Value.Kind() != constant.Bool {
+				continue
+			}
+			want := constant.BoolVal(k.Value)
+			if f.Op == token.NEQ {
+				want = !want
+			} else if f.Op != token.EQL {
+				continue
+			}
+			if want {
+				res = 1
+			} else {
+				res = -1
+			}
+		}
+		return res
+	}
 	for i, r := range returnsOf(fn) {
 		key := fmt.Sprintf("dpt.Produce return#%d", i)
 		if len(r.Results) != 2 {
 			c.Fail("C19.produce-ok", key, p.InstrPos(r), "expected two results")
 			continue
 		}
+		// second result: the lookup's ok, or the constant it is known to equal on this path
+		good := true
 		oks := resultValues(r, 1)
-		good := len(oks) == 1 && oks[0] == okVal
-		c.Decide(good, "C19.produce-ok", key+" ok", p.InstrPos(r), "second result is the comma-ok of the map lookup", "second result is not the map lookup's ok value")
+		for _, ov := range oks {
+			ov = resolvePhiAt(ov, r.Block())
+			if ov == okVal {
+				continue
+			}
+			k, isK := ov.(*ssa.Const)
+			if isK && k.Value != nil && k.Value.Kind() == constant.Bool {
+				st := okAt(r.Block(), nil)
+				if (constant.BoolVal(k.Value) && st == 1) || (!constant.BoolVal(k.Value) && st == -1) {
+					continue
+				}
+			}
+			good = false
+		}
+		c.Decide(good && len(oks) >= 1, "C19.produce-ok", key+" ok", p.InstrPos(r), "second result equals the comma-ok of the map lookup", "second result is not the map lookup's ok value")
 
-		// first result: on !ok edge nil; on ok edge a fresh allocation
+		// first result: nil exactly when !ok, otherwise a fresh allocation
 		for _, dv := range resultValues(r, 0) {
-			checkProducedValue(c, p, key, r, dv, okVal, protoVal)
+			checkProducedValue(c, p, key, r, resolvePhiAt(dv, r.Block()), okAt, protoVal)
 		}
 	}
-	// the prototype reaches only reflect.TypeOf
+	// the prototype reaches only reflect.TypeOf / reflect.ValueOf, and reflect values derived from it
+	// are only inspected (Elem, Type, Kind, Indirect): nothing hands out or mutates the prototype
 	if protoVal != nil {
 		bad := ""
 		var follow func(v ssa.Value, depth int)
+		var followRV func(v ssa.Value, depth int)
+		followRV = func(v ssa.Value, depth int) {
+			if depth > 8 {
+				bad = "reflect value chain too deep"
+				return
+			}
+			for _, u := range usesOf(v) {
+				switch x := u.(type) {
+				case *ssa.Call:
+					o := calleeObj(x)
+					switch {
+					case funcIs(o, "reflect", "Value", "Elem"), funcIs(o, "reflect", "", "Indirect"):
+						followRV(x, depth+1)
+					case funcIs(o, "reflect", "Value", "Type"), funcIs(o, "reflect", "Value", "Kind"), funcIs(o, "reflect", "Value", "IsNil"), funcIs(o, "reflect", "Value", "IsValid"):
+					default:
+						bad = "a reflect.Value of the prototype is used by " + x.Common().String() + " (it can hand out or modify the registry's prototype)"
+					}
+				case *ssa.DebugRef:
+				case *ssa.Store:
+					// spilled receiver of a method call on the value: follow the cell's loads
+					if al, ok := x.Addr.(*ssa.Alloc); ok && x.Val == v {
+						for _, lu := range usesOf(al) {
+							if ld, ok := lu.(*ssa.UnOp); ok && ld.Op == token.MUL {
+								followRV(ld, depth+1)
+							}
+						}
+					} else {
+						bad = "a reflect.Value of the prototype is stored"
+					}
+				default:
+					bad = fmt.Sprintf("a reflect.Value of the prototype flows into %T", u)
+				}
+			}
+		}
 		follow = func(v ssa.Value, depth int) {
 			for _, u := range usesOf(v) {
 				switch x := u.(type) {
@@ -295,7 +374,11 @@ func checkProduce(c *Check, p *Program) {
 				case *ssa.MakeInterface:
 					follow(x, depth+1)
 				case *ssa.Call:
-					if !funcIs(calleeObj(x), "reflect", "", "TypeOf") {
+					switch {
+					case funcIs(calleeObj(x), "reflect", "", "TypeOf"):
+					case funcIs(calleeObj(x), "reflect", "", "ValueOf"):
+						followRV(x, 0)
+					default:
 						bad = "prototype is passed to " + x.Common().String()
 					}
 				case *ssa.DebugRef:
@@ -305,43 +388,109 @@ func checkProduce(c *Check, p *Program) {
 			}
 		}
 		follow(protoVal, 0)
-		c.Decide(bad == "", "C19.produce-fresh", "dpt.Produce prototype use", p.InstrPos(lk), "the looked-up prototype reaches only reflect.TypeOf", bad)
+		c.Decide(bad == "", "C19.produce-fresh", "dpt.Produce prototype use", p.InstrPos(lk), "the looked-up prototype reaches only reflect.TypeOf/ValueOf and is only inspected", bad)
 	}
 }
 
-func checkProducedValue(c *Check, p *Program, key string, r *ssa.Return, dv, okVal, protoVal ssa.Value) {
+func checkProducedValue(c *Check, p *Program, key string, r *ssa.Return, dv ssa.Value, okAt func(b, succ *ssa.BasicBlock) int, protoVal ssa.Value) {
 	switch x := dv.(type) {
 	case *ssa.Phi:
 		for i, e := range x.Edges {
 			pred := x.Block().Preds[i]
-			onOK := false
-			for _, ed := range domEdges(pred) {
-				if ed.Cond == okVal && ed.Pol {
-					onOK = true
-				}
-			}
-			// pred itself may be the branching block
-			if iff := ifOf(pred); iff != nil && iff.Cond == okVal {
-				onOK = pred.Succs[0] == x.Block() && pred.Succs[0] != pred.Succs[1]
-			}
+			st := okAt(pred, x.Block())
 			sub := fmt.Sprintf("%s d edge%d", key, i)
 			if isNilConst(e) {
-				c.Decide(!onOK, "C19.produce-ok", sub, p.InstrPos(r), "nil result only on the !ok edge", "nil datapoint returned although the name is registered")
+				c.Decide(st == -1, "C19.produce-ok", sub, p.InstrPos(r), "nil result only on the !ok edge", "nil datapoint returned although the name is registered")
 				continue
 			}
-			c.Decide(onOK, "C19.produce-ok", sub, p.InstrPos(r), "result assigned only on the ok edge", "a datapoint is returned for an unknown name")
+			c.Decide(st == 1, "C19.produce-ok", sub, p.InstrPos(r), "result assigned only on the ok edge", "a datapoint is returned for an unknown name")
 			checkFresh(c, p, sub, r, e, protoVal)
 		}
 	default:
+		st := okAt(r.Block(), nil)
 		if isNilConst(dv) {
-			c.OK("C19.produce-ok", key+" d", p.InstrPos(r), "nil result")
+			c.Decide(st == -1, "C19.produce-ok", key+" d", p.InstrPos(r), "nil result behind !ok", "nil datapoint returned although the name may be registered")
 			return
 		}
+		c.Decide(st == 1, "C19.produce-ok", key+" d", p.InstrPos(r), "a datapoint is returned only behind ok", "a datapoint is returned for an unknown name")
 		checkFresh(c, p, key+" d", r, dv, protoVal)
 	}
 }
 
-// checkFresh: v = typeassert((reflect.Value).Interface(reflect.New(TypeOf(proto).Elem())))
+// reflKind classifies a reflect value/type derived from the prototype:
+// "T:ptr" TypeOf(proto), "T:elem" its element type, "V:ptr" ValueOf(proto),
+// "V:elem" the prototype's pointee; "" unknown.
+func reflKind(v ssa.Value, proto ssa.Value, depth int) string {
+	if depth > 10 {
+		return ""
+	}
+	// values spilled into a cell for a method call with a value receiver
+	if u, ok := v.(*ssa.UnOp); ok && u.Op == token.MUL {
+		if al, ok := u.X.(*ssa.Alloc); ok {
+			if sts := cellStores(al); len(sts) == 1 {
+				return reflKind(sts[0].Val, proto, depth+1)
+			}
+		}
+		return ""
+	}
+	call, ok := v.(*ssa.Call)
+	if !ok {
+		return ""
+	}
+	o := calleeObj(call)
+	arg0 := func() ssa.Value {
+		if call.Common().IsInvoke() {
+			return call.Common().Value
+		}
+		if len(call.Common().Args) == 0 {
+			return nil
+		}
+		a := call.Common().Args[0]
+		for {
+			switch x := a.(type) {
+			case *ssa.ChangeInterface:
+				a = x.X
+				continue
+			case *ssa.MakeInterface:
+				a = x.X
+				continue
+			}
+			break
+		}
+		return a
+	}
+	switch {
+	case funcIs(o, "reflect", "", "TypeOf"):
+		if arg0() == proto {
+			return "T:ptr"
+		}
+	case funcIs(o, "reflect", "", "ValueOf"):
+		if arg0() == proto {
+			return "V:ptr"
+		}
+	case funcIs(o, "reflect", "", "Indirect"):
+		if reflKind(arg0(), proto, depth+1) == "V:ptr" {
+			return "V:elem"
+		}
+	case o != nil && o.Name() == "Elem":
+		switch reflKind(arg0(), proto, depth+1) {
+		case "T:ptr":
+			return "T:elem"
+		case "V:ptr":
+			return "V:elem"
+		}
+	case o != nil && o.Name() == "Type" && funcIs(o, "reflect", "Value", "Type"):
+		switch reflKind(arg0(), proto, depth+1) {
+		case "V:ptr":
+			return "T:ptr"
+		case "V:elem":
+			return "T:elem"
+		}
+	}
+	return ""
+}
+
+// checkFresh: v = (reflect.New(<element type of the prototype>)).Interface(), possibly through a type assertion.
 func checkFresh(c *Check, p *Program, key string, r *ssa.Return, v ssa.Value, proto ssa.Value) {
 	fail := func(why string) { c.Fail("C19.produce-fresh", key, p.InstrPos(r), why) }
 	if ta, ok := v.(*ssa.TypeAssert); ok {
@@ -355,34 +504,24 @@ func checkFresh(c *Check, p *Program, key string, r *ssa.Return, v ssa.Value, pr
 		fail("returned value is not the Interface() of a reflect.Value (it may alias the registry prototype)")
 		return
 	}
-	nw, ok := call.Common().Args[0].(*ssa.Call)
+	recv := call.Common().Args[0]
+	if u, ok := recv.(*ssa.UnOp); ok && u.Op == token.MUL {
+		if al, ok := u.X.(*ssa.Alloc); ok {
+			if sts := cellStores(al); len(sts) == 1 {
+				recv = sts[0].Val
+			}
+		}
+	}
+	nw, ok := recv.(*ssa.Call)
 	if !ok || !funcIs(calleeObj(nw), "reflect", "", "New") {
 		fail("the reflect.Value is not produced by reflect.New (no fresh allocation)")
 		return
 	}
-	el, ok := nw.Common().Args[0].(*ssa.Call)
-	if !ok || !el.Common().IsInvoke() || el.Common().Method.Name() != "Elem" {
-		fail("reflect.New is not applied to TypeOf(prototype).Elem()")
+	if k := reflKind(nw.Common().Args[0], proto, 0); k != "T:elem" {
+		fail("reflect.New is not applied to the element type of the looked-up prototype (TypeOf(prototype).Elem() or an equivalent chain); derivation: " + map[string]string{"": "unrecognised", "T:ptr": "the pointer type itself", "V:ptr": "a value", "V:elem": "a value"}[k])
 		return
 	}
-	to, ok := el.Common().Value.(*ssa.Call)
-	if !ok || !funcIs(calleeObj(to), "reflect", "", "TypeOf") {
-		fail("Elem() is not applied to reflect.TypeOf(prototype)")
-		return
-	}
-	arg := to.Common().Args[0]
-	for {
-		if ci, ok := arg.(*ssa.ChangeInterface); ok {
-			arg = ci.X
-			continue
-		}
-		break
-	}
-	if arg != proto {
-		fail("reflect.TypeOf is not applied to the looked-up prototype")
-		return
-	}
-	c.OK("C19.produce-fresh", key, p.InstrPos(r), "reflect.New(reflect.TypeOf(prototype).Elem()).Interface(): a new zero value of exactly the prototype's element type")
+	c.OK("C19.produce-fresh", key, p.InstrPos(r), "reflect.New(<element type of the prototype>).Interface(): a new zero value of exactly the prototype's element type")
 }
 
 // checkDptGlobalsReadOnly: no store to any package-level variable of dpt
@@ -463,7 +602,7 @@ func checkDptGlobalsReadOnly(c *Check, p *Program, registered map[*types.Named]s
 
 func checkListSupported(c *Check, p *Program) {
 	fn := p.Func("knx/dpt", "ListSupportedTypes")
-	g := p.Global("knx/dpt", "dptTypes")
+	g := registryGlobal(p)
 	if fn == nil {
 		c.Fail("C19.list", "dpt.ListSupportedTypes", "", "function not found")
 		return
@@ -548,4 +687,44 @@ func checkListSupported(c *Check, p *Program) {
 		}
 	}
 	c.Decide(okAppend, "C19.list", "dpt.ListSupportedTypes range", p.InstrPos(rng), "every key of the range is appended unconditionally", "keys are filtered or not appended")
+}
+
+// registryObj: the registry is the one package-level variable of package dpt
+// whose type is map[string]Datapoint (found by type, not by name).
+func registryObj(pkg *types.Package) types.Object {
+	var found types.Object
+	n := 0
+	for _, name := range pkg.Scope().Names() {
+		v, ok := pkg.Scope().Lookup(name).(*types.Var)
+		if !ok {
+			continue
+		}
+		m, ok := v.Type().Underlying().(*types.Map)
+		if !ok {
+			continue
+		}
+		if b, ok := m.Key().Underlying().(*types.Basic); !ok || b.Kind() != types.String {
+			continue
+		}
+		if nt, ok := m.Elem().(*types.Named); ok && nt.Obj().Name() == "Datapoint" && nt.Obj().Pkg() == pkg {
+			found = v
+			n++
+		}
+	}
+	if n != 1 {
+		return nil
+	}
+	return found
+}
+
+func registryGlobal(p *Program) *ssa.Global {
+	pk := p.PkgSyntax("knx/dpt")
+	if pk == nil {
+		return nil
+	}
+	obj := registryObj(pk.Types)
+	if obj == nil {
+		return nil
+	}
+	return p.Global("knx/dpt", obj.Name())
 }
